@@ -1392,6 +1392,7 @@ class Linker:
         self.__globals = {}
         self.__loader = loader
         self.__pendingImports = set()
+        self.__loadedImports = set()
 
     def AddModule(self, module: Module):
         self.__modules.append(module)
@@ -1406,8 +1407,16 @@ class Linker:
         self.__pendingImports.update(module.Imports)
 
     def Link(self) -> Program:
-        # add all imported modules
-        for importedModule in self.__pendingImports:
-            self.AddModule(self.__loader.Load(importedModule))
+        # Add all imported modules, including those imported by imported
+        # modules, each exactly once. AddModule extends the pending imports,
+        # so we work on a snapshot and repeat until nothing new shows up
+        while True:
+            pending = sorted(self.__pendingImports - self.__loadedImports)
+            if not pending:
+                break
+
+            for importedModule in pending:
+                self.__loadedImports.add(importedModule)
+                self.AddModule(self.__loader.Load(importedModule))
 
         return Program(self.__functions, self.__globals)
